@@ -23,6 +23,7 @@ from netqasm.lang.operand import (
 )
 from netqasm.lang.subroutine import Subroutine
 from netqasm.lang.symbols import Symbols
+from netqasm.lang.version import NETQASM_VERSION
 from netqasm.util.error import NetQASMInstrError, NetQASMSyntaxError
 from netqasm.util.string import group_by_word, is_number, is_variable_name
 
@@ -140,7 +141,9 @@ def _create_subroutine(
             preamble_data[Symbols.PREAMBLE_NETQASM][0][0]
         )
     else:
-        netqasm_version = None
+        # No version given: the current one (passing None would override that
+        # default of the subroutine, which could then not be serialized)
+        netqasm_version = NETQASM_VERSION
 
     app_id: Optional[int]
     if Symbols.PREAMBLE_APPID in preamble_data:
